@@ -26,10 +26,12 @@ Proof. exists (run_det init ops). split; auto. apply run_det_valid. Qed.
 Definition keys (n : nat) : list kt := map (fun i => (K (N.of_nat i) (N.of_nat i), Chunk)) (seq 1 n).
 Definition xk (i : N) : kt := (K i i, Chunk).
 
-(* 25 keys advertised by holder 7 with range 100: 20 closest in flight, 5 queued; then a single-key
-   advert from holder 8 (fast path, beyond the cap); 21 s later everything in flight has timed out *)
+(* MAX+5 keys advertised by holder 7 with range 100: the MAX closest in flight, 5 queued; then a
+   single-key advert from holder 8 (fast path, beyond the cap); FETCH_TIMEOUT + 1 s later everything
+   in flight has timed out.  Stated relative to the constants read from the source. *)
+Definition NK : nat := (MAXn + 5)%nat.
 Definition ex_ops : list op :=
-  [SetRange 100; AddKeys 7 (keys 25) []; AddKeys 8 [xk 40] []; Advance 21000; NextKeys].
+  [SetRange 100; AddKeys 7 (keys NK) []; AddKeys 8 [xk 90] []; Advance (FETCH_T + 1000); NextKeys].
 Definition ex_tr := run_det init ex_ops.
 Definition st_after (n : nat) : state := last_state init (run_det init (firstn n ex_ops)).
 
@@ -45,8 +47,8 @@ Example ex_multi_key_premises :
     (2 <= length inc)%nat /\ ~ KnownFastPathMulti pre h inc held /\
     length (ongoing post) = MAXn /\ length (tbf post) = 5%nat.
 Proof.
-  exists (st_after 1), 7, (keys 25), [], (snd (step_det (st_after 1) (AddKeys 7 (keys 25) []))),
-         (fst (step_det (st_after 1) (AddKeys 7 (keys 25) []))), 100.
+  exists (st_after 1), 7, (keys NK), [], (snd (step_det (st_after 1) (AddKeys 7 (keys NK) []))),
+         (fst (step_det (st_after 1) (AddKeys 7 (keys NK) []))), 100.
   split; [apply run_det_reachable|]. split; [vm_compute; reflexivity|]. split; [reflexivity|].
   split; [vm_compute; lia|]. split.
   - intros [_ H]. vm_compute in H. discriminate.
@@ -66,12 +68,13 @@ Example ex_timeout_premises :
   let pre := st_after 4 in
   reachable pre /\ schedules NextKeys = true /\
   (exists e, In e (ongoing pre) /\ op_completes NextKeys e = false /\ expired pre e) /\
-  events (snd (step_det pre NextKeys)) = [[7; 7; 7; 7; 7; 7; 7; 7; 7; 7; 7; 7; 7; 7; 7; 7; 7; 7; 7; 7; 8]] /\
+  (exists ev, events (snd (step_det pre NextKeys)) = [ev] /\ In 7 ev /\ In 8 ev) /\
   tbf (fst (step_det pre NextKeys)) = [] /\ ongoing (fst (step_det pre NextKeys)) = [].
 Proof.
   split; [apply run_det_reachable|]. split; [reflexivity|]. split.
   - exists (OE (K 1 1) 0 7 FETCH_T). split; [vm_compute; left; reflexivity|]. split; [reflexivity|]. vm_compute. reflexivity.
-  - split; [|split]; vm_compute; reflexivity.
+  - split; [|split]; [|vm_compute; reflexivity|vm_compute; reflexivity].
+    eexists. split; [vm_compute; reflexivity|]. split; vm_compute; tauto.
 Qed.
 
 (* leaves_ongoing: an arrival ends a fetch, the freed slot is used by the closest queued record *)
@@ -79,30 +82,30 @@ Example ex_arrival :
   let pre := st_after 2 in
   let e := OE (K 3 3) 0 7 FETCH_T in
   In e (ongoing pre) /\ op_keeps pre (NotifyPut (K 3 3) Chunk) e = false /\
-  ret (snd (step_det pre (NotifyPut (K 3 3) Chunk))) = [(7, K 21 21)].
+  ret (snd (step_det pre (NotifyPut (K 3 3) Chunk))) = [(7, K (N.of_nat (S MAXn)) (N.of_nat (S MAXn)))].
 Proof. split; [vm_compute; tauto|]. split; vm_compute; reflexivity. Qed.
 
 (* full node: a fullness update drops what is too far and bounds later adverts *)
 Example ex_full_node :
-  let s := last_state init (run_det init [AddKeys 7 (keys 25) []; SetFarthest (Some (K 10 10)); AddKeys 8 (keys 25) []]) in
+  let s := last_state init (run_det init [AddKeys 7 (keys NK) []; SetFarthest (Some (K 10 10)); AddKeys 8 (keys NK) []]) in
   reachable s /\ farthest s = Some 10 /\ length (ongoing s) = 10%nat /\ length (tbf s) = 10%nat.
 Proof. split; [apply run_det_reachable|]. split; [|split]; vm_compute; reflexivity. Qed.
 
 (* liveness, bound form: one fair round that does not reach the farthest of 25 unheld records *)
 Example ex_liveness_bound_premises :
-  let U := keys 25 in let x := xk 25 in let tr := run_det init [AddKeys 7 (keys 25) []] in
+  let U := keys NK in let x := xk (N.of_nat NK) in let tr := run_det init [AddKeys 7 (keys NK) []] in
   valid tr /\ NoDup (map fst U) /\ adverts_in U tr /\ In x U /\
   Forall (fair_round U 7 x) (rounds 7 x init tr) /\ fair_chain (rounds 7 x init tr) /\
   (forall r, In r (rounds 7 x init tr) -> ~ inflight (r_post r) x) /\
-  length (rounds 7 x init tr) = 1%nat /\ unheld_count U [] = 25%nat.
+  length (rounds 7 x init tr) = 1%nat /\ unheld_count U [] = NK.
 Proof.
   cbv zeta. split; [apply run_det_valid|].
   split. { apply (nodup_by_NoDup key_eqb key_eqb_eq). vm_compute. reflexivity. }
   split. { intros o out post h inc held Hin Ho. vm_compute in Hin. destruct Hin as [Hin|[]].
            inversion Hin; subst. inversion H0; subst. apply incl_refl. }
   split. { vm_compute. tauto. }
-  assert (Hr : exists post, rounds 7 (xk 25) init (run_det init [AddKeys 7 (keys 25) []]) = [(init, [], post)] /\
-                            og_mem (xk 25) (ongoing post) = false).
+  assert (Hr : exists post, rounds 7 (xk (N.of_nat NK)) init (run_det init [AddKeys 7 (keys NK) []]) = [(init, [], post)] /\
+                            og_mem (xk (N.of_nat NK)) (ongoing post) = false).
   { eexists. split; vm_compute; reflexivity. }
   destruct Hr as (post & Hr & Hm). rewrite Hr.
   split. { constructor; [|constructor]. unfold fair_round; cbn [r_pre r_held fst snd].
